@@ -44,20 +44,12 @@ use super::{
   util::{self, Args, CaseOut, Rng},
 };
 
-// ---------- allocation probes (set by the harness binary) ----------
-static mut ALLOC_PROBE: Option<fn() -> u64> = None;
-static mut LIVE_PROBE: Option<fn() -> i64> = None;
-pub fn set_alloc_probe(f: fn() -> u64) {
-  unsafe { ALLOC_PROBE = Some(f) }
-}
-pub fn set_live_probe(f: fn() -> i64) {
-  unsafe { LIVE_PROBE = Some(f) }
-}
+// ---------- allocation probes (set by the harness binary, kept in util so that the binary does not depend on this driver) ----------
 fn allocated() -> u64 {
-  unsafe { ALLOC_PROBE.map(|f| f()).unwrap_or(0) }
+  util::allocated()
 }
 fn live() -> i64 {
-  unsafe { LIVE_PROBE.map(|f| f()).unwrap_or(0) }
+  util::live()
 }
 
 // ---------- wire encoder, independent of the implementation's serialiser ----------
